@@ -2169,3 +2169,68 @@ def fam_U(tier):
             globs = {"gu": 4, "gi": 9} if "uint gu;" in src else {}
             inputs.append(({n: vals[n] for t, n in params}, globs))
         yield {"fam": "U", "desc": f"int-uint-mix;{name}", "src": src + "\n", "units": [{"funcs": [], "entry": "f", "inputs": inputs}]}
+
+
+# =============================================================================================
+# G: grammar forms of the scalar core that the tree families do not spell (C01)
+# =============================================================================================
+def SP(t, v, text):
+    return ("lit", t, v, text)
+
+
+def g_cases():
+    T = lambda e: ASG(V("t"), B("%", B("+", B("*", V("t"), lit(31)), e), lit(MOD)))
+    out = []
+
+    def add(name, body, ret="int", rete=None, inputs=((0, 1), (2, 5), (-3, 2))):
+        full = [("decl", "int", "t", lit(1))] + body + [("ret", rete if rete is not None else V("t"))]
+        f = func("f", [("int", "a"), ("int", "b")], ret, full)
+        out.append({"fam": "G", "desc": f"form={name}", "units": [{"funcs": [f], "entry": "f", "inputs": [({"a": x, "b": y}, {}) for x, y in inputs]}]})
+
+    # literal spellings
+    for text, v in (("0x1F", 31), ("0X1f", 31), ("0x0", 0), ("017", 15), ("00", 0), ("0", 0), ("123", 123), ("-7", -7), ("+7", 7)):
+        add(f"int-literal:{text}", [T(B("+", V("a"), SP("int", v, text)))])
+        add(f"int-literal-first:{text}", [T(B("-", SP("int", v, text), V("a")))])
+    for text, v in (("1.", 1.0), (".5", 0.5), ("0.5", 0.5), ("1e2", 100.0), ("1.5e1", 15.0), ("2.5f", 2.5), ("25e-2", 0.25), ("1.0E0", 1.0)):
+        add(f"float-literal:{text}", [], "float", B("+", B("*", V("a"), SP("float", v, text)), SP("float", v, text)))
+    add("array-index-hex", [("decl", ("arr", "int", (3,)), "ar", None), ASG(IDX(V("ar"), SP("int", 2, "0x2")), lit(9)), T(IDX(V("ar"), SP("int", 2, "02")))])
+    # signed literals next to operators
+    for name, e in (("minus-negative", B("-", V("a"), lit(-3))), ("plus-negative", B("+", V("a"), lit(-3))), ("times-negative", B("*", V("a"), lit(-2))),
+                    ("negative-first", B("+", lit(-3), V("a"))), ("compare-negative", B("<", V("a"), lit(-1))), ("positive-signed", B("-", V("a"), SP("int", 4, "+4")))):
+        add(f"signed-literal:{name}", [T(e)])
+    # for-header variants
+    inc = ASG(V("i"), B("+", V("i"), lit(1)))
+    add("for-no-init", [("decl", "int", "i", lit(0)), ("for", None, B("<", V("i"), lit(3)), ("pre", "++", "i"), ("block", [T(V("i"))]))])
+    add("for-no-next", [("for", ("decl", "int", "i", lit(0)), B("<", V("i"), lit(3)), None, ("block", [T(V("i")), inc]))])
+    add("for-no-cond", [("for", ("decl", "int", "i", lit(0)), None, ("pre", "++", "i"), ("block", [("if", B(">", V("i"), lit(2)), ("block", [("break",)]), None), T(V("i"))]))])
+    add("for-empty-header", [("decl", "int", "i", lit(0)), ("for", None, None, None, ("block", [inc, ("if", B(">", V("i"), lit(3)), ("block", [("break",)]), None), T(V("i"))]))])
+    for name, nxt in (("post-inc", ("post", "++", "i")), ("pre-inc", ("pre", "++", "i")), ("plus-assign", ("asg", "+=", V("i"), lit(1))), ("assign", ("asg", "=", V("i"), B("+", V("i"), lit(1)))),
+                      ("post-dec", ("post", "--", "i"))):
+        if name == "post-dec":
+            add(f"for-next:{name}", [("for", ("decl", "int", "i", lit(3)), B(">", V("i"), lit(0)), nxt, ("block", [T(V("i"))]))])
+        else:
+            add(f"for-next:{name}", [("for", ("decl", "int", "i", lit(0)), B("<", V("i"), lit(3)), nxt, ("block", [T(V("i"))]))])
+    add("for-continue-runs-next", [("for", ("decl", "int", "i", lit(0)), B("<", V("i"), lit(4)), ("pre", "++", "i"), ("block", [("if", B("==", V("i"), lit(1)), ("block", [("continue",)]), None), T(V("i"))]))])
+    # unbraced bodies
+    add("unbraced-if-else-chain", [("if", B(">", V("a"), lit(0)), T(lit(1)), ("if", B("<", V("a"), lit(0)), T(lit(2)), T(lit(3))))])
+    add("unbraced-for", [("for", ("decl", "int", "i", lit(0)), B("<", V("i"), lit(3)), ("pre", "++", "i"), T(V("i")))])
+    add("unbraced-while", [("decl", "int", "i", lit(0)), ("while", B("<", V("i"), lit(3)), ASG(V("i"), B("+", V("i"), lit(1)))), T(V("i"))])
+    add("unbraced-nested", [("for", ("decl", "int", "i", lit(0)), B("<", V("i"), lit(2)), ("pre", "++", "i"),
+                             ("for", ("decl", "int", "j", lit(0)), B("<", V("j"), lit(2)), ("pre", "++", "j"), ("if", B("!=", V("i"), V("j")), T(B("+", B("*", V("i"), lit(2)), V("j"))), None)))])
+    add("unbraced-if-return", [("if", B(">", V("a"), lit(1)), ("ret", lit(77)), None), T(V("a"))])
+    add("while-empty-body", [("while", B("<", V("a"), lit(-50)), ("empty",)), T(V("a"))])
+    add("nested-and-empty-blocks", [("block", [("block", [T(lit(1))]), ("block", [])]), ("block", []), T(lit(2))])
+    add("expression-statement-without-effect", [("expr", B("+", V("a"), lit(1))), ("expr", V("a")), T(V("a"))])
+    add("early-return-in-loop", [("for", ("decl", "int", "i", lit(0)), B("<", V("i"), lit(5)), ("pre", "++", "i"), ("block", [T(V("i")), ("if", B("==", V("i"), V("a")), ("block", [("ret", B("+", V("t"), lit(1000)))]), None)]))])
+    add("do-while-once", [("decl", "int", "i", lit(9)), ("do", ("block", [T(V("i"))]), B("<", V("i"), lit(0)))])
+    # comparison chains / mixed precedence with compound assignment
+    add("comparison-chain", [T(B("==", B("<", V("a"), V("b")), lit(1))), T(B("<", B("<", V("a"), V("b")), lit(1)))])
+    add("compound-rhs-is-whole-expression", [ASG(V("t"), B("+", V("a"), lit(1)), "*="), ASG(V("t"), B("-", V("a"), V("b")), "-="), ASG(V("t"), B("*", lit(2), lit(3)), "+=")])
+    add("logical-mix", [T(B("||", B("&&", V("a"), V("b")), B("==", V("a"), lit(0)))), T(B("&&", B("||", V("a"), V("b")), B("!=", V("b"), lit(5))))])
+    add("modulo-and-division-chain", [T(B("%", B("/", B("*", B("+", V("b"), lit(7)), lit(9)), lit(2)), lit(5)))])
+    return out
+
+
+@family("G")
+def fam_G(tier):
+    yield from g_cases()
